@@ -191,12 +191,16 @@ pub fn run(ctx: &Ctx, rep: &mut Report) {
                 let proxy = u.env.register(Proxy, ());
                 {
                     let (t, m, a2, b2, p2) = (tk.clone(), minter.clone(), a.clone(), b.clone(), proxy.clone());
+                    let c_twin = twin_of(&u.env, &c);
                     let exp = u.seq() + 500;
                     u.setup(move |env| {
                         let cl = InterchainTokenClient::new(env, &t);
                         cl.mint_from(&m, &a2, &1000);
                         cl.mint_from(&m, &p2, &1000);
                         cl.approve(&a2, &b2, &300, &exp);
+                        // an allowance to the account that shares its 32 bytes with the contract
+                        // address c: it is not c's
+                        cl.approve(&a2, &c_twin, &300, &exp);
                         cl.add_minter(&p2);
                     });
                 }
